@@ -334,6 +334,12 @@ class Funcs:
             return self._concrete(name, args)
         args = [z3.RealVal(a) if isinstance(a, int) else _b(a) for a in args]
         args = [z3.simplify(a) for a in args]
+        if name.startswith("bessel_") and z3.is_rational_value(args[0]) and args[0].denominator_as_long() == 1 \
+                and args[0].numerator_as_long() < 0:
+            # integer order reflection: J_-n = (-1)^n J_n, Y_-n = (-1)^n Y_n, I_-n = I_n, K_-n = K_n
+            n = -args[0].numerator_as_long()
+            t = self._base(name, [z3.RealVal(n), args[1]])
+            return -t if (name[-1] in "JY" and n % 2 == 1) else t
         key = (name, tuple(a.get_id() for a in args))
         cache = self._apps.setdefault(name, {})
         if key in cache:
@@ -522,4 +528,6 @@ def absval(a, funcs):
     if isinstance(a, Cx):
         return funcs.apply("sqrt", add(mul(a.re, a.re), mul(a.im, a.im)))
     c = cmp(">=", a, 0)
+    if isinstance(a, Dual):
+        funcs.side.append(cmp("!=", a, 0))      # |.| is differentiated only where it is smooth
     return ite(c, a, neg(a))
